@@ -254,7 +254,26 @@ def run_history(seed, k, mon):
         if free and n > 3:
             far = rng.random(n) < 0.1
             t[far, free[0]] += 3.0 * (box[free[0]][1] - box[free[0]][0])
+        if rng.random() < 0.15:
+            # coordinates handed over as integers (np.mgrid[0:3, 0:3]...)
+            t = np.round(t).astype(np.int64)
+            for ax in range(dim):
+                if periodic and periodic[ax]:
+                    lo, hi = box[ax]
+                    t[:, ax] = np.clip(t[:, ax], int(np.ceil(lo + 1e-6)),
+                                       int(np.floor(hi - 1e-6)))
+            desc['int_targets'] = desc.get('int_targets', 0) + 1
         return t
+
+    def target_h(step):
+        # target points carry the largest source smoothing length (the h
+        # that enters HIJ and WI of the documented sums, and "in range")
+        want = max(float(pa.h.max()) for pa in pas)
+        got = interp.pa.get('h', only_real_particles=True)
+        if got.size and not np.all(got == want):
+            return ('target-h', 'op %d: target points have h in [%r, %r], '
+                    'largest source h is %r' % (step, float(got.min()),
+                                                float(got.max()), want))
     desc = dict(k=k, dim=dim, method=method, kernel=kname or 'default',
                 narr=narr, periodic=periodic, variable=variable, ops=[])
     auto = rng.random() < 0.3
@@ -273,6 +292,9 @@ def run_history(seed, k, mon):
         # the interpolator infers the dimension from the bounding box
         return desc, ('dim', 'Interpolator.dim = %d for %d-d data' % (
             interp.dim, dim))
+    bad = target_h(-1)
+    if bad:
+        return desc, bad
     Kuse = interp.kernel
     nops = int(rng.integers(4, 9))
     props = ['p', 'q', 'lf', 'cf', 'only0']
@@ -283,6 +305,9 @@ def run_history(seed, k, mon):
             interp.set_interpolation_points(x=t1[:, 0], y=t1[:, 1],
                                             z=t1[:, 2])
             desc['ops'].append('set_interpolation_points')
+            bad = target_h(step)
+            if bad:
+                return desc, bad
         elif step and r < 0.3:
             pas = make_sources(rng, dim, narr, periodic, box, variable)
             # same names and properties as before, as the docs require
